@@ -132,7 +132,11 @@ CHECKS = {
              "PositionsValid and generates one history per (abstract state, operation); each history and "
              "seeded random ones (all three conflict strategies, values of varied byte length) run on the "
              "real node with real restarts; TLC validates against Trace_Restore (dump after restart = dump "
-             "at the last completed snapshot incl. id and strategy).",
+             "at the last completed snapshot incl. id and strategy). Every completed snapshot of those runs is "
+             "also compared with the byte-level model NunDiskBytes (Trace_Snap: files after = the modelled "
+             "file-system calls executed on the files before; in-memory addresses and states = the model's; "
+             "the modelled loader on those files = the live entries), whose design-level exploration with "
+             "RestoreExact / AddrsValid is NunDiskCrash (see C11).",
         note="declutter tick driven explicitly; restart = start_db sequence on the same directory (probed in "
              "a child process first because a damaged file can abort the loader)",
         technique="TLA+ reference (persisted = last completed snapshot) + TLC trace validation; TLC-generated histories",
